@@ -62,8 +62,18 @@ def condvar(ctx):
     lock = lambda s: prog.site_calls(w, s, {"shuttle_std::sync::mutex::Mutex::lock"})
     ctx.ob("C05.CV", "wait-relocks", w.path_exists(None, w.is_return, lock) is None, "every normal return of Condvar::wait re-acquires the mutex", loc=w.loc())
     rem = [s for s, t in w.calls() if any(c.endswith("VecDeque::remove") for c in w.callees_of_call(t, passed=False))]
-    ctx.ob("C05.CV", "signal-consumed-from-others", bool(rem) and all(in_cycle(w, s) for s in rem),
+    ret = [s for s, t in w.calls() if any(c.endswith("VecDeque::retain") for c in w.callees_of_call(t, passed=False))]
+    ctx.ob("C05.CV", "signal-consumed-from-others", bool(rem or ret) and all(in_cycle(w, s) for s in rem + ret),
            "the Signal branch removes the consumed epoch from the other waiters inside the loop over the waiter list", loc=w.loc())
+    # the consumed epoch can sit anywhere in another waiter's queue (a later arrival consumes a later epoch first), so it has to be
+    # searched for, not taken from a fixed end
+    fsw = FlowSlicer(w, control=False)
+    by_search = all(any(l.endswith("Iterator::position") or l.endswith("Iterator>::position") for l in fsw.operand_labels(w.at(s)["args"][1], s)) for s in rem)
+    ends = [s for s, t in w.calls() if in_cycle(w, s) and any(c.endswith(("VecDeque::pop_front", "VecDeque::pop_back")) for c in w.callees_of_call(t, passed=False))]
+    ctx.ob("C05.CV", "consumed-epoch-found-by-search", bool(rem or ret) and by_search and not ends,
+           "inside that loop the epoch to delete is located by a search over the whole queue (position / retain), never popped from an end" if (by_search and not ends) else
+           "inside the loop over the other waiters an epoch is taken from a fixed end of the queue (or at an index that is not the result of a search): "
+           "a later waiter that consumed a later epoch leaves it pending in earlier waiters, and one notify_one releases two of them", loc=w.loc((ends or rem or [None])[0]))
     reblock = [s for s in blocks if s != SB]
     ctx.ob("C05.CV", "others-reblocked", bool(reblock) and all(in_cycle(w, s) for s in reblock),
            "waiters left without a pending signal are blocked again (inside that loop)", loc=w.loc())
